@@ -67,6 +67,13 @@ PLAIN = [
     ("move-comment-delimiters", lambda g: g.move(x=1.5, comment="x ) ] */ **// ))(( y")),
     ("annotate-delimiters", lambda g: g.annotate("key", "*/ ) ] **//")),
     ("halt-comment", lambda g: g.emergency_halt("stop ) */ now")),
+    # a caller's comment on table-driven commands replaces the built-in description: still at most one comment
+    ("set_axis-comment", lambda g: g.set_axis(x=0, y=0, comment="part zero is here")),
+    ("auto_home-comment", lambda g: g.auto_home(comment="go home")),
+    ("auto_home-x-comment", lambda g: g.auto_home(x=0, comment="home x")),
+    ("probe-comment", lambda g: g.probe("towards", z=-1.5, comment="touch off")),
+    ("rapid-comment", lambda g: g.rapid(x=1.5, comment="reposition")),
+    ("move_absolute-comment", lambda g: g.move_absolute(x=1.5, comment="fixed point")),
     # line-break characters inside the text: every emitted line still ends exactly once, with the configured ending
     ("comment-linebreaks", lambda g: g.comment("a\rb\nc\r\nd\x0be\x0cf\x85g\u2028h")),
     ("move-comment-cr", lambda g: g.move(x=1.5, comment="x\ry")),
